@@ -8,6 +8,7 @@ from vcommon import Infra
 import fam_writepath
 import fam_search
 import fam_minmax
+import fam_merge
 
 
 class WritePathFamily:
@@ -31,7 +32,14 @@ class MinMaxFamily:
     evidence = staticmethod(fam_minmax.evidence)
 
 
-FAMILIES = [WritePathFamily, SearchFamily, MinMaxFamily]
+class MergeFamily:
+    NAME = "merge"
+    PROPS = fam_merge.PROPS
+    compute = staticmethod(fam_merge.compute)
+    evidence = staticmethod(fam_merge.evidence)
+
+
+FAMILIES = [WritePathFamily, SearchFamily, MinMaxFamily, MergeFamily]
 
 
 def family_of(pid):
